@@ -82,6 +82,7 @@ def run(ctx):
     for mode in MODES:
         _filter_clusters(rc, mode)
     _corners(rc)
+    _corner_score(rc)
     res.rule("Q-dtype", "no ranking / filtering function stores a float score into an array that inherits the dtype of its argument (integer curves would truncate the scores)")
     from . import detectors as _d
     _d.dtype_guard(rc, "Q-dtype", ["knee_ranking", "postprocessing"])
@@ -240,6 +241,49 @@ def _corners(rc: RuleCtx):
     else:
         res.violation("Q5", fi.module, fi.name, loop, "corner variant: a cluster is not represented by exactly the member maximising the corner-triangle score",
                       str([(str(e.guard)[:60], _short(e.args[0], 160)) for e in apps]), _short(want, 200), construct="corner representative")
+
+
+def _corner_score(rc: RuleCtx):
+    """The corner-triangle score, one per knee: 1/2 * (x[k] - x[k-1]) * (y[k] - y[k+1]) - the horizontal step into the
+    knee times the vertical drop after it.  Decided by value on the element view of the returned array, so a
+    per-knee loop and element-wise array arithmetic are the same thing."""
+    from .. import elem
+    from .common import judge
+    res = rc.res
+    fi = rc.func("postprocessing.rank_corners_triangle")
+    ev = rc.new_eval()
+    ev.summarise_loops = True
+    pts = ev.point("points", True)
+    knees = ev.symbol("knees", True)
+    ev.len_map = {"points": sym("n"), "knees": sym("K")}
+    try:
+        out = ev.eval_function(fi, {"points": pts, "knees": knees})
+        val = out.value()
+    except Unsupported as e:
+        raise AnalysisError(f"{fi.qualname}: not modelled: {e}")
+    j = sym("j")
+    anf.declare_integer(j)
+    if isinstance(val, PW):
+        raise AnalysisError(f"{fi.qualname}: the score array depends on a condition - shape not recognised")
+    try:
+        got, ln = elem.element_of_value(ev, val, j)
+    except elem.NoElement as e:
+        raise AnalysisError(f"{fi.qualname}: {e}")
+    x, y = pts.items
+    kj = _at(knees, j)
+    want = C(1) / C(2) * (_at(x, kj) - _at(x, kj - C(1))) * (_at(y, kj) - _at(y, kj + C(1)))
+    if not ln.equals(sym("K")):
+        res.violation("Q5", fi.module, fi.name, fi.node, "the corner-triangle scores are not one per knee", f"{_short(ln, 80)} scores", "len(knees) scores",
+                      construct="corner score count")
+        return
+    verdict, why = judge(got, want)
+    if verdict == "equal":
+        res.ok("Q5", fi.qualname, "score[j] == 1/2 * (x[k_j] - x[k_j - 1]) * (y[k_j] - y[k_j + 1]), one score per knee")
+    elif verdict == "inconclusive":
+        raise AnalysisError(f"INCONCLUSIVE Q5 {fi.qualname}: {why}")
+    else:
+        res.violation("Q5", fi.module, fi.name, fi.node, "the corner-triangle score of a knee is not half the step into the knee times the drop after it",
+                      _short(got, 220), _short(want, 220), construct="corner score")
 
 
 def _smooth_ranking(rc: RuleCtx):
